@@ -60,6 +60,8 @@ func RandSched(r *simrt.Rand) SchedCfg {
 	// swarm: sometimes switch whole yield classes off
 	if r.Pct(30) {
 		s.Mask &^= simrt.ClassLock
+	} else if r.Pct(40) {
+		s.Mask |= simrt.ClassUnlock // also decide who runs right after every unlock
 	}
 	if r.Pct(15) {
 		s.Mask &^= simrt.ClassFS
